@@ -16,6 +16,18 @@ inductive LErr where
 
 abbrev R := Except LErr
 
+instance {α} [DecidableEq α] : DecidableEq (R α) := fun a b =>
+  match a, b with
+  | .ok x, .ok y => if h : x = y then isTrue (by rw [h]) else isFalse (fun e => h (Except.ok.inj e))
+  | .error x, .error y => if h : x = y then isTrue (by rw [h]) else isFalse (fun e => h (Except.error.inj e))
+  | .ok _, .error _ => isFalse (fun e => by cases e)
+  | .error _, .ok _ => isFalse (fun e => by cases e)
+
+/-- the reader raised (`LoadError` at the API) -/
+def failed {α} : R α → Bool
+  | .ok _ => false
+  | .error _ => true
+
 def optE {α} (e : LErr) : Option α → R α
   | some a => .ok a
   | none => .error e
